@@ -1,7 +1,7 @@
 ---------------------------- MODULE ChunkParserImpl_MC ----------------------------
 EXTENDS ChunkParserImpl
 Types == {"moov", "moof", "mdat"}
-TypesT == {"ftyp", "moov", "styp", "moof", "mdat", "free"}
+TypesT == {"ftyp", "moov", "moof", "mdat"}
 B(t, s) == [t |-> t, s |-> s, real |-> s]
 \* all well-formed streams of 1..3 boxes
 WF(types, sizes) == UNION { [1..n -> { B(t, s) : t \in types, s \in sizes }] : n \in 1..3 }
